@@ -1,0 +1,181 @@
+//go:build verif
+// +build verif
+
+package simdjson
+
+import (
+	"sync/atomic"
+)
+
+// Simulation hook points (build tag "verif" only).
+//
+// A deterministic simulator installs SimHook and is then called at the
+// hand-off steps of the two-stage pipeline, at the chunk-parser steps of
+// ParseNDStream and around the tenancy of pooled codecs in the serializer.
+// The callback may block (park the calling goroutine); with SimHook == nil
+// every hook is a nil check.
+
+type simEvent = SimEvent
+
+// SimEvent identifies a hook site.
+type SimEvent int
+
+const (
+	simPAcquire simEvent = iota + 1
+	simPSend
+	simPDone
+	simCRecv
+	simCReceived
+	simCStart
+	simCDone
+	simNDChunkStart
+	simNDChunkParsed
+	simPoolGet
+	simPoolPutBefore
+	simPoolPutAfter
+)
+
+// Exported names of the events.
+const (
+	SimPAcquire      = simPAcquire      // producer took ring slot arg, before the first write into it
+	SimPSend         = simPSend         // producer about to send a buffer with arg indexes (arg -1: terminator)
+	SimPDone         = simPDone         // producer sent the terminator
+	SimCRecv         = simCRecv         // consumer is done with its current buffer and about to receive (arg 0: stage 2, 1: async drain, 2: sync drain after stage-1 failure, 3: sync drain after stage-2 failure)
+	SimCReceived     = simCReceived     // consumer received (arg: index field of the received element; -1 is the terminator)
+	SimCStart        = simCStart        // stage 2 starts (arg 1: concurrent path, 0: sync path)
+	SimCDone         = simCDone         // stage 2 goroutine finished, including draining
+	SimNDChunkStart  = simNDChunkStart  // ParseNDStream chunk parser arg may start
+	SimNDChunkParsed = simNDChunkParsed // ParseNDStream chunk parser arg finished parsing and wants to deliver
+	SimPoolGet       = simPoolGet       // a pooled codec of kind arg was taken
+	SimPoolPutBefore = simPoolPutBefore // a pooled codec of kind arg is about to be returned
+	SimPoolPutAfter  = simPoolPutAfter  // a pooled codec of kind arg has been returned
+)
+
+// Probe ids (counters only).
+const (
+	simProbeAsync = iota
+	simProbeSync
+	simProbeStrippedCarry
+	simProbePaddedTail
+	simProbeStringPadSmall
+	simProbeStringPadLarge
+	simProbeStringsRegrow
+	simProbeDrainAsync
+	simProbeStage1FailAsync
+	simProbeNDBlankChunk
+	simProbeDrainSync1
+	simProbeDrainSync2
+	simProbeCount
+)
+
+// SimProbeNames names the probe counters, by index.
+var SimProbeNames = [simProbeCount]string{
+	simProbeAsync:           "async_path",
+	simProbeSync:            "sync_path",
+	simProbeStrippedCarry:   "stripped_index_carry",
+	simProbePaddedTail:      "padded_tail",
+	simProbeStringPadSmall:  "string_pad_small",
+	simProbeStringPadLarge:  "string_pad_large",
+	simProbeStringsRegrow:   "strings_regrow",
+	simProbeDrainAsync:      "drain_async_stage2_failed",
+	simProbeStage1FailAsync: "stage1_failed_async",
+	simProbeNDBlankChunk:    "nd_chunk_empty_after_read",
+	simProbeDrainSync1:      "drain_sync_stage1_failed",
+	simProbeDrainSync2:      "drain_sync_stage2_failed",
+}
+
+// Pool kinds for the SimPool* events.
+const (
+	simPoolS2Fast = iota
+	simPoolS2
+	simPoolZstdEnc
+	simPoolS2Reader
+	simPoolZstdDec
+)
+
+// SimPoolNames names the pool kinds.
+var SimPoolNames = [...]string{"s2fast", "s2", "zstdenc", "s2reader", "zstddec"}
+
+// SimHandle identifies the parser state a hook call belongs to.
+type SimHandle struct{ p *internalParsedJson }
+
+// Valid reports whether the handle refers to a parser (pool events carry none).
+func (h SimHandle) Valid() bool { return h.p != nil }
+
+// SimHook, when non-nil, is called at every hook site.
+var SimHook func(ev SimEvent, h SimHandle, arg int)
+
+// SimProbes are hit counters of rarely taken branches.
+var SimProbes [simProbeCount]uint64
+
+func simHook(ev simEvent, pj *internalParsedJson, arg int) {
+	if h := SimHook; h != nil {
+		h(ev, SimHandle{pj}, arg)
+	}
+}
+
+func simProbe(id int) {
+	atomic.AddUint64(&SimProbes[id], 1)
+}
+
+// SimProbeSnapshot returns the current probe counters.
+func SimProbeSnapshot() (out [simProbeCount]uint64) {
+	for i := range out {
+		out[i] = atomic.LoadUint64(&SimProbes[i])
+	}
+	return
+}
+
+// SimHandleOf returns the handle of the parser state kept inside a result
+// (zero handle when the result carries none).
+func SimHandleOf(pj *ParsedJson) SimHandle {
+	if pj == nil {
+		return SimHandle{}
+	}
+	return SimHandle{pj.internal}
+}
+
+// SimRing reports the ring geometry and the live occupancy of the hand-off channel.
+func SimRing(h SimHandle) (slots, slotLen, chanCap, chanLen int) {
+	slots, slotLen = indexSlots, indexSize
+	if h.p != nil && h.p.indexChans != nil {
+		chanCap, chanLen = cap(h.p.indexChans), len(h.p.indexChans)
+	}
+	return
+}
+
+// SimHeld reports the buffer the consumer currently holds: its ring slot
+// (-1 if none), the read position inside it and its length.
+func SimHeld(h SimHandle) (slot, index, length int) {
+	slot = -1
+	if h.p == nil {
+		return
+	}
+	c := h.p.indexesChan
+	index, length = c.index, c.length
+	if c.indexes != nil {
+		for s := range h.p.buffers {
+			if &h.p.buffers[s] == c.indexes {
+				slot = s
+				break
+			}
+		}
+	}
+	return
+}
+
+// SimSlotDigest returns a digest of the first n entries of a ring slot.
+func SimSlotDigest(h SimHandle, slot, n int) uint64 {
+	d := uint64(14695981039346656037)
+	if h.p == nil || slot < 0 || slot >= indexSlots {
+		return d
+	}
+	if n > indexSize {
+		n = indexSize
+	}
+	for _, v := range h.p.buffers[slot][:n] {
+		d ^= uint64(v)
+		d *= 1099511628211
+	}
+	return d
+}
